@@ -1031,7 +1031,7 @@ def _slug(text, n=48):
     return t[:n]
 
 
-def rbe_check(ctx, rule, cls, methods, what, floor=None, rbe=None):
+def rbe_check(ctx, rule, cls, methods, what, floor=None, rbe=None, discharge=None):
     """refuse-before-effect for cls.methods; one finding per (entry, raise site)"""
     prog = ctx.prog
     rbe = rbe or RBE(prog)
@@ -1041,6 +1041,11 @@ def rbe_check(ctx, rule, cls, methods, what, floor=None, rbe=None):
         if fn is None:
             raise AnalysisError(f'anchor vanished: {cls}.{m}')
         s, viol = rbe.check(cls, m)
+        if discharge is not None and viol:
+            kept = [v for v in viol if not discharge(cls, m, v)]
+            if len(kept) != len(viol):
+                ctx.extra.setdefault('callee_refusals_unreachable', []).append(f'{cls}.{m}: {len(viol) - len(kept)} refusal(s) in called methods not reachable with the arguments passed')
+            viol = kept
         n += 1
         ctx.examined(len(s['raises']) + 1)
         ok = not viol
